@@ -148,7 +148,7 @@ func loadedFromField(v ssa.Value, st *types.Named, idx int, fns ...*ssa.Function
 
 func r18j(c *core.Ctx) {
 	for _, m := range closeMethods(c) {
-		if m.Name() != "Close" && m.Name() != "Shutdown" {
+		if core.CanonName(m) != "Close" && core.CanonName(m) != "Shutdown" {
 			continue
 		}
 		rt := m.Signature.Recv().Type()
